@@ -5499,17 +5499,25 @@ impl BytecodeVM {
                 }
 
                 // Get the tag function and this value
-                let tag_fn = self.get_reg(tag);
-                let this_val = self.get_reg(this);
+                let tag_fn = self.get_reg(tag).clone();
+                let this_val = self.get_reg(this).clone();
+                tag_fn.guard_by(&guard);
+                this_val.guard_by(&guard);
+                for arg in &args {
+                    arg.guard_by(&guard);
+                }
 
-                // Call the tag function
-                let Guarded {
-                    value,
-                    guard: _guard,
-                } = interp.call_function(tag_fn.clone(), this_val.clone(), &args)?;
-
-                self.set_reg(dst, value);
-                Ok(OpResult::Continue)
+                // Call the tag function like any other call: through the trampoline, so that
+                // its body runs step by step on the VM's own stack
+                Ok(OpResult::Call {
+                    callee: tag_fn,
+                    this_value: this_val,
+                    args,
+                    return_register: dst,
+                    new_target: JsValue::Undefined,
+                    is_super_call: false,
+                    guard,
+                })
             }
 
             // ═══════════════════════════════════════════════════════════════════════════
